@@ -184,6 +184,20 @@ theorem full_identifier_pretask_multiset (hc : HC Nat) (hinj : ∀ a b, hc.H a =
   have e := (fullId_inj hc hinj hemb g1 g2 n1 n2 h).2.1
   exact (sortBy_perm hc.le _).symm.trans (by rw [e]; exact sortBy_perm hc.le _)
 
+/-- **the full signature at every depth**: for graphs over one class library, equal full identifiers under the
+    ideal hash ⇒ equal full identifiers under every hash structure whose digest order is a total order: same
+    signature of the configuration, same multiset of pre-task signatures, same sequence of init-task
+    signatures, each at every depth. -/
+theorem full_identifier_signature_every_depth {D' : Type} (hc : HC Nat) (hinj : ∀ a b, hc.H a = hc.H b → a = b)
+    (hemb : ∀ d, hc.emb d = [256 + d]) (hc' : HC D')
+    (total : ∀ a b, hc'.le a b = true ∨ hc'.le b a = true)
+    (trans : ∀ a b c, hc'.le a b = true → hc'.le b c = true → hc'.le a c = true)
+    (antisymm : ∀ a b, hc'.le a b = true → hc'.le b a = true → a = b)
+    (lib : List Nat → List Nat → STy) (g1 g2 : Graph)
+    (hg1 : LibTyped lib g1) (hg2 : LibTyped lib g2) (hz1 : g1.size + 1 < 2^64) (hz2 : g2.size + 1 < 2^64)
+    (n1 n2 : Nat) (h : fullId hc g1 n1 = fullId hc g2 n2) : fullId hc' g1 n1 = fullId hc' g2 n2 :=
+  fullId_hash_independent hc hinj hemb hc' total trans antisymm lib g1 g2 hg1 hg2 hz1 hz2 n1 n2 h
+
 /-- the ideal-hash hypotheses are consistent: `idealHC` satisfies them. -/
 theorem ideal_hash_exists : ∃ hc : HC Nat, (∀ a b, hc.H a = hc.H b → a = b) ∧ ∀ d, hc.emb d = [256 + d] :=
   ⟨idealHC, idealHC_inj, idealHC_emb⟩
@@ -248,5 +262,21 @@ example : LibTyped libEx gEx ∧ gEx.size + 1 < 2^64 := by
   | 0 => exact ⟨by simp [gEx, Graph.node, noTag], by simp [ArgsTyped, gEx, Graph.node, libEx, noTag, VT, ok, dropped]⟩
   | 1 => exact ⟨by simp [gEx, Graph.node, noTag], by simp [ArgsTyped, gEx, Graph.node, libEx, noTag, VT, ok]⟩
   | n + 2 => exact ⟨by simp [gEx, Graph.node, noTag], by simp [ArgsTyped, gEx, Graph.node]⟩
+
+/-- the order hypotheses of `full_identifier_signature_every_depth` hold for the expanding structure
+    (`bytesLe` is a total order), so it applies with `hc' := expandHC`. -/
+example (hc : HC Nat) (hinj : ∀ a b, hc.H a = hc.H b → a = b) (hemb : ∀ d, hc.emb d = [256 + d])
+    (lib : List Nat → List Nat → STy) (g1 g2 : Graph) (hg1 : LibTyped lib g1) (hg2 : LibTyped lib g2)
+    (hz1 : g1.size + 1 < 2^64) (hz2 : g2.size + 1 < 2^64) (n1 n2 : Nat)
+    (h : fullId hc g1 n1 = fullId hc g2 n2) : fullId expandHC g1 n1 = fullId expandHC g2 n2 :=
+  full_identifier_signature_every_depth hc hinj hemb expandHC bytesLe_total bytesLe_trans bytesLe_antisymm
+    lib g1 g2 hg1 hg2 hz1 hz2 n1 n2 h
+
+/-! Not formalised as such: the `SigTree` data type of DESIGN §4 (`ident_injective : full g₁ n₁ = full g₂ n₂ →
+    fullSig g₁ n₁ = fullSig g₂ n₂`).  It is replaced by the equivalent hash-independent statements
+    `raw_identifier_signature_every_depth` / `full_identifier_signature_every_depth` (take for `hc'` the free
+    structure, e.g. `expandHC`), plus the one-level decomposition `raw_identifier_signature_step`.
+    Union types and `Any` are not representable in `STy` (they are not `Unamb`); `Path` values are encoded as the
+    unsupported token and belong to no type. -/
 
 end XpmVerif.C03
